@@ -508,7 +508,8 @@ def run_check(mod, prop, tier, seed, a, t0):
             "samples": samples[:12],
             "explanation": prop.notes,
         },
-        "assumptions": prop.assumptions,
+        "assumptions": list(prop.assumptions) + (
+            [sys.modules["session_common"].A_ASCII] if "session_common" in sys.modules and pid != "C02" else []),
         "wall_s": round(time.time() - t0, 2),
         "violations": violations,
     }
